@@ -22,6 +22,11 @@ type Scenario struct {
 
 	Knobs map[string]int `json:"knobs,omitempty"`
 
+	// Env: what the code under test is told when it asks its environment (the
+	// instrumenter redirects time.Now/Since/Until/Sleep, runtime.NumCPU /
+	// GOMAXPROCS(0) and the global math/rand functions to the simulator).
+	Env *EnvScn `json:"env,omitempty"`
+
 	Doc    []byte `json:"doc_b64"`
 	DocSHA string `json:"doc_sha256,omitempty"`
 
@@ -96,6 +101,59 @@ type ReaderScn struct {
 	// two-pass recipe of a caller that renders while it reads); "eager-use" =
 	// additionally renders and formats the block at once
 	Consumer string `json:"consumer,omitempty"`
+	// Companion: the caller multiplexes a SECOND parse in the same goroutine
+	// (a server that reads two streams in turns, an include directive that
+	// parses a snippet while the outer document is half read).  Between two
+	// NextBlock calls of the main parser the companion parser is advanced by a
+	// few NextBlock calls of its own, or a complete in-memory Parse of the
+	// companion document runs.  Each parse must come out as if it had run
+	// alone; state that outlives a single NextBlock call somewhere else than in
+	// the parser value itself (a pooled line parser that keeps the queue of
+	// closed blocks, a package-level scratch tree) shows only then.
+	Companion *CompanionScn `json:"companion,omitempty"`
+}
+
+// EnvScn: the simulated environment of one evaluation.  The clock of a
+// process never goes back: it starts at a fixed epoch and is moved forward by
+// ClockJump before the evaluation and by ClockPerYield at every yield step, so
+// its value is a pure function of the recorded history.
+type EnvScn struct {
+	ClockJump     int64  `json:"clock_jump_ns,omitempty"`
+	ClockPerYield int64  `json:"clock_ns_per_yield,omitempty"`
+	CPUs          int    `json:"cpus,omitempty"` // what runtime.NumCPU() / GOMAXPROCS(0) answer; 0 = the real value
+	RandSeed      uint64 `json:"rand_seed,omitempty"`
+}
+
+// genEnv draws the environment of sub-scenario j of run i from a stream of
+// its own (the scenario's other draws are unaffected).
+func genEnv(seed uint64, stream string, i, j int) *EnvScn {
+	r := rngFor(seed, stream+"/env", i*64+j)
+	e := &EnvScn{RandSeed: r.U64()}
+	// time between two evaluations: none, milliseconds, seconds, minutes, hours
+	e.ClockJump = []int64{0, 0, 1e6, 5e7, 1e9, 1e9, 61e9, 3601e9}[r.Intn(8)] * int64(1+r.Intn(3))
+	// time during an evaluation: frozen, or 1 ns .. 1 s per yield step
+	e.ClockPerYield = []int64{0, 0, 1, 1e3, 1e6, 2e7, 1e9}[r.Intn(7)]
+	e.CPUs = []int{0, 1, 2, 4, 8, 16, 64}[r.Intn(7)]
+	return e
+}
+
+func applyEnv(e *EnvScn) {
+	if e == nil {
+		simrt.AdvanceClock(0, 0)
+		simrt.SetKnob("cpus", 0)
+		return
+	}
+	simrt.AdvanceClock(e.ClockJump, e.ClockPerYield)
+	simrt.SetKnob("cpus", e.CPUs)
+	simrt.SeedRand(e.RandSeed)
+}
+
+type CompanionScn struct {
+	Doc   []byte `json:"doc"`
+	Mode  string `json:"mode"`  // stream | parse: turns between two NextBlock calls; stream@read | parse@read: turns INSIDE the main reader's Read calls (every Every-th), i.e. while the main parser is in the middle of NextBlock
+	Every int    `json:"every"` // a turn after every Every-th NextBlock return of the main parser (and one before the first)
+	Steps int    `json:"steps"` // NextBlock calls of the companion per turn (stream mode)
+	Chunk int    `json:"chunk"` // read size of the companion's reader
 }
 
 type WriterScn struct {
